@@ -10,6 +10,7 @@ import Driver.C08
 import Driver.C12
 import Driver.C05
 import Driver.C09
+import Driver.C11
 open AITB
 
 def handleLine (line : String) : String :=
@@ -28,6 +29,7 @@ def handleLine (line : String) : String :=
   | "C12" :: rest => DrvC12.handle rest
   | "C05" :: rest => DrvC05.handle rest
   | "C09" :: rest => DrvC09.handle rest
+  | "C11" :: rest => DrvC11.handle rest
   | _ => "bad-op"
 
 partial def loop (h : IO.FS.Stream) (out : IO.FS.Stream) : IO Unit := do
